@@ -11,7 +11,7 @@ props = [prop]
 if len(sys.argv) > 4 and sys.argv[3] == "--props":
     props = sys.argv[4].split(",")
 wt = f"/tmp/mut/{prop}"
-src = f"/tmp/mutout/{prop}/m{k}"
+src = f"{os.environ.get('MUTOUT', '/tmp/mutout')}/{prop}/m{k}"
 env = dict(os.environ, CARGO_NET_OFFLINE="true")
 
 def sh(cmd, cwd=wt, timeout=1800):
@@ -21,27 +21,40 @@ def sh(cmd, cwd=wt, timeout=1800):
 def clean():
     sh("git checkout -- . && rm -f tests/demo.rs")
 
-clean()
+PHASE = os.environ.get("PHASE", "ab")
+cj = f"{src}/confirm.json"
+if "a" not in PHASE and os.path.exists(cj):
+    saved = json.load(open(cj))
+else:
+    saved = None
+    clean()
 meta = {"property": prop, "source": f"sub-agent mut-{prop}, change m{k}", "ran": []}
-rc, out = sh(f"git apply {src}/patch.diff")
-assert rc == 0, out
-rc, out = sh("cargo test --workspace --no-fail-fast --offline 2>&1")
-out = "\n".join(l for l in out.splitlines() if re.match(r"test result|.*FAILED|error", l))
-fails = re.findall(r"test result: FAILED|error(\[|:)", out)
-passed = sum(int(x) for x in re.findall(r"(\d+) passed", out))
-meta["suite_with_change"] = {"passed": passed, "failed": len(fails)}
-meta["ran"].append("cargo test --workspace --no-fail-fast --offline   (with the change)")
-shutil.copy(f"{src}/demo.rs", f"{wt}/tests/demo.rs")
-rc1, out1 = sh("cargo test --offline --test demo 2>&1"); out1 = out1[-1500:]
-meta["demo_with_change_rc"] = rc1
-meta["ran"].append("cargo test --offline --test demo   (with the change: must fail)")
-sh("git checkout -- .")
-rc2, out2 = sh("cargo test --offline --test demo 2>&1"); out2 = out2[-600:]
-meta["demo_without_change_rc"] = rc2
-meta["ran"].append("cargo test --offline --test demo   (without the change: must pass)")
-clean()
+if saved is None:
+  rc, out = sh(f"git apply {src}/patch.diff")
+  assert rc == 0, out
+if saved is None:
+  rc, out = sh("cargo test --workspace --no-fail-fast --offline 2>&1")
+  out = "\n".join(l for l in out.splitlines() if re.match(r"test result|.*FAILED|error", l))
+  fails = re.findall(r"test result: FAILED|error(\[|:)", out)
+  passed = sum(int(x) for x in re.findall(r"(\d+) passed", out))
+  meta["suite_with_change"] = {"passed": passed, "failed": len(fails)}
+  meta["ran"].append("cargo test --workspace --no-fail-fast --offline   (with the change)")
+  shutil.copy(f"{src}/demo.rs", f"{wt}/tests/demo.rs")
+  rc1, out1 = sh("cargo test --offline --test demo 2>&1"); out1 = out1[-1500:]
+  meta["demo_with_change_rc"] = rc1
+  meta["ran"].append("cargo test --offline --test demo   (with the change: must fail)")
+  sh("git checkout -- .")
+  rc2, out2 = sh("cargo test --offline --test demo 2>&1"); out2 = out2[-600:]
+  meta["demo_without_change_rc"] = rc2
+  meta["ran"].append("cargo test --offline --test demo   (without the change: must pass)")
+  clean()
+  json.dump({"meta": meta, "rc": rc, "fails": len(fails), "passed": passed, "rc1": rc1, "rc2": rc2, "out": out[-500:], "out1": out1, "out2": out2}, open(cj, "w"))
+else:
+  meta.update(saved["meta"]); rc, passed, rc1, rc2, out, out1, out2 = (saved[k_] for k_ in ("rc", "passed", "rc1", "rc2", "out", "out1", "out2")); fails = [0] * saved["fails"]
 ok = (rc == 0 and len(fails) == 0 and passed >= 48 and rc1 != 0 and rc2 == 0)
 meta["confirmed"] = ok
+if "b" not in PHASE:
+    print(prop, k, "confirmed" if ok else "NOT CONFIRMED"); sys.exit(0)
 # our checks
 res = {}
 r = subprocess.run(["git", "-C", "/repo", "diff", "--quiet"])
@@ -59,7 +72,7 @@ try:
                 res[p]["replay_excerpt"] = {kk: v.get(kk) for kk in ("kind", "operation", "implementation", "specification", "note", "no_failing_input", "what") if kk in v}
 finally:
     subprocess.run(["git", "-C", "/repo", "checkout", "--", "."], check=True)
-        subprocess.run(["git", "-C", "/repo", "clean", "-fdq", "src", "tests"], check=True)
+    subprocess.run(["git", "-C", "/repo", "clean", "-fdq", "src", "tests"], check=True)
 meta["checks_quick"] = res
 meta["detected_by"] = [p for p, v in res.items() if v["rc"] == 1]
 notes = open(f"{src}/notes.md").read() if os.path.exists(f"{src}/notes.md") else ""
